@@ -4,6 +4,7 @@ import (
 	"fmt"
 	"math"
 	"reflect"
+	"regexp"
 	"runtime"
 	"sort"
 	"strings"
@@ -662,6 +663,57 @@ func c07Overlaps(maxEntries int) *core.Space {
 	}
 }
 
+// (i) single odd calls that do not fit the product spaces
+func c07OddCalls() *core.Space {
+	type oc struct {
+		name string
+		run  func()
+	}
+	cases := []oc{
+		{"SetInt(\"\", MaxInt64, 1, MaxIdx(MaxInt64)): the index plus one overflows", func() {
+			ucfg.New().SetInt("", math.MaxInt64, 1, ucfg.MaxIdx(math.MaxInt64))
+		}},
+		{"NewFrom({\"a.9223372036854775807\": 1}, PathSep, MaxIdx(MaxInt64))", func() {
+			ucfg.NewFrom(M{"a.9223372036854775807": 1}, ucfg.PathSep("."), ucfg.MaxIdx(math.MaxInt64))
+		}},
+		{"a config attached below itself: c.SetChild(\"a\", -1, c), then Path/FlattenedKeys/Unpack", func() {
+			c := mustCfg(M{"x": 1})
+			c.SetChild("a", -1, c)
+			c.Path(".")
+			c.FlattenedKeys()
+			var m map[string]interface{}
+			c.Unpack(&m)
+		}},
+		{"a config attached below its own child: ch := c.Child(a); ch.SetChild(\"up\", -1, c), then reads", func() {
+			c := mustCfg(M{"a": M{"x": 1}})
+			ch := mustChild(c, "a", -1)
+			ch.SetChild("up", -1, c)
+			ch.Path(".")
+			c.Path(".")
+			c.FlattenedKeys()
+			var m map[string]interface{}
+			c.Unpack(&m)
+		}},
+		{"a regexp.Regexp held by value in a map / struct / slice as merge source", func() {
+			ucfg.New().Merge(M{"r": *regexp.MustCompile("a")})
+			ucfg.New().Merge(struct{ R regexp.Regexp }{*regexp.MustCompile("a")})
+			ucfg.NewFrom([]regexp.Regexp{*regexp.MustCompile("a")})
+			ucfg.NewFrom(map[string]regexp.Regexp{"k": *regexp.MustCompile("a")})
+		}},
+		{"a time.Duration / *regexp.Regexp behind interfaces and pointers as merge source", func() {
+			d := 3 * time.Second
+			pd := &d
+			ucfg.New().Merge(M{"d": &pd, "r": regexp.MustCompile("a"), "n": (*regexp.Regexp)(nil), "z": (*time.Duration)(nil)})
+		}},
+	}
+	return &core.Space{
+		Name: "odd-calls",
+		Size: len(cases),
+		Text: func(i int) string { return cases[i].name },
+		Exec: func(i int) core.Result { return c07Wrap("odd-call", cases[i].run) },
+	}
+}
+
 // (f) the lexer goroutine and the parser under the scheduler: every interleaving of their
 // channel operations (send, receive, range, close, the non-blocking select) - no bound.
 func c07Lexer(maxLen int) *core.Space { return c07LexerP(maxLen, []string{""}) }
@@ -766,9 +818,9 @@ func init() {
 		},
 		Spaces: func(tier string) []*core.Space {
 			if tier == "thorough" {
-				return []*core.Space{c07Unpack(), c07Cycles(), c07Overlaps(3), c07Addresses(), c07Parse(5), c07VarExp(6, []string{""}), c07VarExp(5, []string{"${}", "${:a}", "a${a.${}"}), c07Loaders(4), c07Lexer(5), c07LexerPrefixed(4)}
+				return []*core.Space{c07Unpack(), c07OddCalls(), c07Cycles(), c07Overlaps(3), c07Addresses(), c07Parse(5), c07VarExp(6, []string{""}), c07VarExp(5, []string{"${}", "${:a}", "a${a.${}"}), c07Loaders(4), c07Lexer(5), c07LexerPrefixed(4)}
 			}
-			return []*core.Space{c07Unpack(), c07Cycles(), c07Overlaps(3), c07Addresses(), c07Parse(4), c07VarExp(5, []string{""}), c07VarExp(4, []string{"${}", "${:a}", "a${a.${}"}), c07Loaders(3), c07Lexer(4), c07LexerPrefixed(3)}
+			return []*core.Space{c07Unpack(), c07OddCalls(), c07Cycles(), c07Overlaps(3), c07Addresses(), c07Parse(4), c07VarExp(5, []string{""}), c07VarExp(4, []string{"${}", "${:a}", "a${a.${}"}), c07Loaders(3), c07Lexer(4), c07LexerPrefixed(3)}
 		},
 	})
 }
